@@ -609,4 +609,31 @@ theorem sync_schedule (errB okB : Bool) (latest ts : BitVec 32) (st ticks : BitV
   rw [h60]
   omega
 
+
+/-! ### Shape pins
+
+The conditions of a target function that are outside the translated fragment (error tests, map look-ups,
+signature calls, loop bounds over slices) cannot be given a semantic obligation. Their TEXT, in source
+order, is pinned instead: a change to one of them - a dropped `.Banned` test, a signature call with another
+key, a look-up that lost its comma-ok form - breaks the pin. A harmless rewording breaks it too; the
+check then reports the pin by name and looks for a failing input like for any other obligation. -/
+theorem shape_syncround : Gen.SyncRound.untranslated = ["i < 6", "i == 5", "!c.tg.Sleep(sendReportTime)", "exists || c.gcaServers[server].Banned", "!found", "err == nil", "newGCA != c.gcaPubKey && newGCA != blank", "!exists || s.Banned", "!exists || s.Banned"] := by decide
+theorem shape_serversync : Gen.ServerSync.untranslated = ["err != nil", "err != nil", "err != nil", "err != nil", "n != int(respLen)", "!glow.Verify(gcasKey, respBuf[:respLen - 64], sig)", "equipmentKey != c.staticPubKey", "newGCA != blank && !glow.Verify(gcaKey, newGCASigningBytes, newGCASignature)", "i + 34 > end", "i + locationLen + 70 > end", "newGCA != blank && len(gcaServers) == 0", "newGCA != blank", "!verify"] := by decide
+theorem shape_authservers : Gen.AuthServersPOST.untranslated = ["err != nil", "!glow.Verify(gcaPubkey, sb, server.GCAAuthorization)", "i < len(s.gcaServers.servers)", "s.gcaServers.servers[i].PublicKey == server.PublicKey", "as.Banned", "err != nil", "err != nil", "err != nil", "err != nil"] := by decide
+theorem shape_validatemigration : Gen.ValidateMigration.untranslated = ["!glow.Verify(gcaPubkey, sb, em.Signature)", "!glow.Verify(em.NewGCA, sb, as.GCAAuthorization)"] := by decide
+theorem shape_syncconn : Gen.SyncConn.untranslated = ["err != nil", "exists", "!exists || !exists2", "migrationExists", "s.Banned", "err != nil"] := by decide
+theorem shape_statshandler : Gen.StatsHandler.untranslated = ["r.Method != http.MethodGet", "tsoStr == \"\"", "err != nil", "err != nil", "wantNegStr == \"true\"", "i < len(stats.Devices)", "j < len(stats.Devices[i].PowerOutputs)", "rand.Intn(50) != 1", "stats.Devices[i].PowerOutputs[j] < 24", "stats.Devices[i].PowerOutputs[j] > 1e18", "err != nil"] := by decide
+theorem shape_loadreading : Gen.LoadReading.untranslated = ["err == io.EOF", "err != nil"] := by decide
+theorem shape_savereading : Gen.SaveReading.untranslated = ["err != nil", "err != nil"] := by decide
+theorem shape_sendloop : Gen.SendLoop.untranslated = ["!isRecent || err != nil", "c.tg.IsStopped()", "!c.tg.Sleep(sendReportTime + randomTimeExtension())", "success"] := by decide
+theorem shape_handlereport : Gen.HandleReport.untranslated = ["err != nil"] := by decide
+theorem shape_rateallow : Gen.RateAllow.untranslated = ["idx == -1"] := by decide
+theorem shape_logprintf : Gen.LogPrintf.untranslated = ["found"] := by decide
+theorem shape_logexpire : Gen.LogExpire.untranslated = ["len(entry.updates) == 0"] := by decide
+theorem shape_integrate : Gen.Integrate.untranslated = [] := by decide
+theorem shape_migrateloop : Gen.MigrateLoop.untranslated = ["!gcas.tg.Sleep(ReportMigrationFrequency)"] := by decide
+theorem shape_impactround : Gen.ImpactRound.untranslated = ["err != nil", "err != nil", "err != nil"] := by decide
+theorem shape_listenudp : Gen.ListenUDP.untranslated = ["server.tg.IsStopped()", "err != nil", "!server.tg.IsStopped()"] := by decide
+theorem shape_buildstats : Gen.BuildStats.untranslated = ["i < 2016"] := by decide
+
 end Gca.Tie
